@@ -594,7 +594,7 @@ class EncodingDetector:
                 stacklevel=3,
             )
             self.known_definite_encodings += override_encodings
-        self.user_encodings = user_encodings or []
+        self.user_encodings = list(user_encodings or [])
         exclude_encodings = exclude_encodings or []
         self.exclude_encodings = set([x.lower() for x in exclude_encodings])
         self.chardet_encoding = None
